@@ -15,7 +15,11 @@ The subset of JSON that `to_json` produces for message dictionaries and `from_js
 * `toJ ftok` is what the encoder makes of a `to_dict()` value: `bytes` become lists of ints (`RTMAJSONEncoder.default`),
   a float becomes its token `ftok bits` (Python's `repr`, supplied by the harness), keys become strings.
 
-Not in the subset: `true` / `false` / `null` (no message field produces them).
+* `ofJ fparse` is the value tree `json.loads` hands to `from_dict` (`fparse`: Python's `float(token)`), and
+  `fromJson fparse d text` is `cls.from_json(text)` = `from_dict(json.loads(text))` on a fresh object.
+
+Not in the subset: `true` / `false` / `null` (no message field produces them).  Objects are association lists: a
+repeated key stays repeated (Python keeps the last one; field names of a class are distinct).
 -/
 namespace Pyrtma.Json
 open Pyrtma.Validators Pyrtma.Serial
@@ -361,5 +365,47 @@ def toJL (ftok : Nat → List Char) : Vals → Option JL
     | some j, some js => some (.cons j js)
     | _, _ => none
 end
+
+/-! ## what `from_dict` is handed after `json.loads` -/
+
+/-- a JSON scalar as the Python value `json.loads` makes of it (`fparse`: Python's `float(token)`) -/
+def scalarOfJ (fparse : List Char → Nat) : J → Scalar
+  | .int n => .int n
+  | .flt t => .flt (fparse t)
+  | .str cs => .str cs
+  | _ => .other
+
+def JL.hasObj : JL → Bool
+  | .nil => false
+  | .cons (.obj _) _ => true
+  | .cons _ r => r.hasObj
+
+def JL.toScalars (fparse : List Char → Nat) : JL → List Scalar
+  | .nil => []
+  | .cons x r => scalarOfJ fparse x :: r.toScalars fparse
+
+def strOfKey (k : List Nat) : String := String.ofList (k.map Char.ofNat)
+
+/- the value tree `json.loads` returns, in the shape `from_dict` looks at it: a list with a dictionary in it is a list
+of struct dictionaries, any other list is the value of one array field -/
+mutual
+def ofJ (fparse : List Char → Nat) : J → Val
+  | .int n => .leaf (.sc (.int n))
+  | .flt t => .leaf (.sc (.flt (fparse t)))
+  | .str cs => .leaf (.sc (.str cs))
+  | .arr xs => if xs.hasObj then .list (ofJL fparse xs) else .leaf (.seq .list (xs.toScalars fparse))
+  | .obj kvs => .dict (ofJO fparse kvs)
+def ofJL (fparse : List Char → Nat) : JL → Vals
+  | .nil => .nil
+  | .cons x r => .cons (ofJ fparse x) (ofJL fparse r)
+def ofJO (fparse : List Char → Nat) : JO → KVs
+  | .nil => .nil
+  | .cons k v r => .cons (strOfKey k) (ofJ fparse v) (ofJO fparse r)
+end
+
+/-- `cls.from_json(text)` = `cls.from_dict(json.loads(text))` on a fresh object -/
+def fromJson (fparse : List Char → Nat) (d : Desc) (text : List Char) : Option (Bytes × Option DErr) :=
+  (parse text).map fun j => fromDict d (ofJ fparse j)
+
 
 end Pyrtma.Json
